@@ -538,8 +538,8 @@ static Case generate(Tape &t)
 		case 4: { int other = K_ALL_OK[t.u8() % K_ALL_OK.size()]; if (other != c.signer) { c.signer = other; C.defects.push_back(fmt("cert%zu signed by another key", j)); } break; }
 		case 5: {
 			static const char *how[] = { "", "one bit flipped", "replaced by the cleartext padded block, one byte longer than the modulus", "replaced by the cleartext padded block, one byte shorter than the modulus",
-				"last byte dropped", "zero byte prepended" };
-			c.corrupt = 1 + (int)(t.u8() % 5);
+				"last byte dropped", "zero byte prepended", "padded block with a wrong separator byte after the FF run, made with the signer's key" };
+			c.corrupt = 1 + (int)(t.u8() % 6);
 			if (pool.at((size_t)c.signer).kind != xl::KK_RSA) c.corrupt = 1;
 			// a 513-byte value exceeds the documented signature buffer (another error code): shorten instead
 			else if (pool.at((size_t)c.signer).bits > 4088 && (c.corrupt == 2 || c.corrupt == 5)) c.corrupt += (c.corrupt == 2 ? 1 : -1);
